@@ -36,7 +36,7 @@ Fixpoint tree_okb (parent : option N) (t : tree) : bool :=
 Lemma die_kinds : is_normal HWLOC_OBJ_DIE = true /\ is_normal HWLOC_OBJ_GROUP = true.
 Proof. split; reflexivity. Qed.
 
-Lemma checks_sound parent o t t' : checks parent o t = Some t' -> node_okb parent t' o = true.
+Lemma checks_sound parent psets o t t' : checks parent psets o t = Some t' -> node_okb parent t' o = true.
 Proof.
   unfold checks.
   set (conv := (t =? HWLOC_OBJ_GROUP) && ((o_gkind o =? HWLOC_GROUP_KIND_INTEL_DIE) || match o_subtype o with Some s => beq s "Die" | None => false end)).
@@ -49,6 +49,7 @@ Proof.
   destruct ((t2 =? HWLOC_OBJ_PU) && _) eqn:E6; [discriminate|].
   destruct ((t2 =? HWLOC_OBJ_NUMANODE) && _) eqn:E7; [discriminate|].
   destruct ((t2 =? HWLOC_OBJ_BRIDGE) && _) eqn:E8; [discriminate|].
+  match goal with |- (if ?c then None else Some _) = Some _ -> _ => destruct c eqn:E9; [discriminate|] end.
   intros [= <-]. unfold node_okb.
   (* kind rule: the conversion Group -> Die stays inside the normal types *)
   assert (K : (match parent with None => t2 =? HWLOC_OBJ_MACHINE | Some p => kind_legal p t2 end) = true).
@@ -106,21 +107,22 @@ Proof.
   destruct (p x), (forallb p l), (forallb p acc); reflexivity.
 Qed.
 
-Lemma import_object_ok e : forall parent ts ri,
-  import_object parent e = OOk ts ri -> forallb (tree_okb parent) ts = true.
+Lemma import_object_ok e : forall parent psets ts ri,
+  import_object parent psets e = OOk ts ri -> forallb (tree_okb parent) ts = true.
 Proof.
-  induction e as [tag attrs content closed kids IHk] using elem_ind'. intros parent ts ri.
+  induction e as [tag attrs content closed kids IHk] using elem_ind'. intros parent psets ts ri.
   cbn [import_object].
   set (o := fold_left one_attr attrs (ost0 match parent with None => true | Some _ => false end)).
   destruct (o_bad o); [discriminate|]. destruct (o_unsure o); [discriminate|].
   destruct (o_ignore o && _); [discriminate|]. destruct (negb (all_space content)); [discriminate|].
   destruct (subnodes _ _ kids) as [[| |] rest]; [|discriminate|discriminate].
   destruct (o_type o) as [t|]; [|discriminate].
-  destruct (checks parent o t) as [t'|] eqn:Ec; [|discriminate].
-  pose proof (checks_sound _ _ _ _ Ec) as Hn.
+  destruct (checks parent psets o t) as [t'|] eqn:Ec; [|discriminate].
+  pose proof (checks_sound _ _ _ _ _ Ec) as Hn.
   set (ign := o_ignore o). set (cparent := if ign then parent else Some t').
+  set (cpsets := if ign then psets else (match o_cs o with Some _ => true | None => false end, match o_ns o with Some _ => true | None => false end)).
   (* the children loop, with the invariant that everything accumulated is well formed below cparent *)
-  assert (Loop : forall l, Forall (fun c => forall parent ts ri, import_object parent c = OOk ts ri -> forallb (tree_okb parent) ts = true) l ->
+  assert (Loop : forall l, Forall (fun c => forall parent psets ts ri, import_object parent psets c = OOk ts ri -> forallb (tree_okb parent) ts = true) l ->
             forall seen acc, forallb (tree_okb cparent) acc = true ->
             (fix children (l : list elem) (seen : bool) (acc : list tree) {struct l} : ores :=
                match l with
@@ -128,7 +130,7 @@ Proof.
                        else if (t' =? HWLOC_OBJ_MEMCACHE) && negb (existsb (fun k => is_memory (t_type k)) acc) then OReject
                        else OOk [T t' o (rev acc)] (o_cs o, o_ns o)
                | c :: tl => if negb (is_obj c) then (if seen then OReject else children tl false acc) else
-                            match import_object cparent c with
+                            match import_object cparent cpsets c with
                             | OReject => OReject | OUnmodelled => OUnmodelled
                             | OOk ts _ => children tl true (rev_append ts acc)
                             end
@@ -143,8 +145,8 @@ Proof.
     - inversion Hall as [|c' tl' Hc Htl]; subst.
       destruct (negb (is_obj c)).
       + destruct seen; [discriminate|]. apply IHl; assumption.
-      + destruct (import_object cparent c) as [| |ts1 ri1] eqn:Ei; [discriminate|discriminate|].
-        apply IHl; [exact Htl|]. rewrite forallb_rev_append. rewrite (Hc _ _ _ Ei). exact Hacc. }
+      + destruct (import_object cparent cpsets c) as [| |ts1 ri1] eqn:Ei; [discriminate|discriminate|].
+        apply IHl; [exact Htl|]. rewrite forallb_rev_append. rewrite (Hc _ _ _ _ Ei). exact Hacc. }
   apply (Loop kids IHk false []). reflexivity.
 Qed.
 
@@ -158,16 +160,16 @@ Lemma import_accept_lemma d t : import_doc d = Accept t ->
 Proof.
   unfold import_doc. destruct ((3 <? d_major d) || (d_major d <? 2)) eqn:Ev; [discriminate|].
   destruct (d_top d) as [|r rest]; [discriminate|]. destruct (negb (is_obj r)); [discriminate|].
-  destruct (import_object None r) as [| |ts [rcs rns]] eqn:Ei; [discriminate|discriminate|].
+  destruct (import_object None (true, true) r) as [| |ts [rcs rns]] eqn:Ei; [discriminate|discriminate|].
   destruct ts as [|t0 [|]]; [discriminate| |discriminate].
   destruct (after_root rest); [|discriminate|discriminate].
   destruct rcs as [cs|]; [|discriminate]. destruct rns as [ns|]; [|discriminate].
-  destruct (bs_is_empty ns); [discriminate|].
+  destruct (bs_is_empty ns && (count_type HWLOC_OBJ_NUMANODE t0 =? 0)); [discriminate|].
   destruct ((count_type HWLOC_OBJ_PU t0 =? 0) || (count_type HWLOC_OBJ_NUMANODE t0 =? 0)) eqn:Ec; [discriminate|].
-  destruct (bs_is_empty cs); [discriminate|]. intros [= <-].
+  intros [= <-].
   apply orb_false_iff in Ec. destruct Ec as [Ep En]. apply orb_false_iff in Ev. destruct Ev as [E3 E2].
   apply N.ltb_ge in E3. apply N.ltb_ge in E2.
-  pose proof (import_object_ok r None _ _ Ei) as Hok. cbn [forallb] in Hok. rewrite andb_true_r in Hok.
+  pose proof (import_object_ok r None _ _ _ Ei) as Hok. cbn [forallb] in Hok. rewrite andb_true_r in Hok.
   repeat split; try assumption; try (apply count_pos; assumption).
 Qed.
 
